@@ -1543,6 +1543,15 @@ class DataFieldRecordArray(
             raise TypeError(
                 'The arr argument must be an instance of DataFieldRecordArray!')
 
+        # Make sure that all data fields are present before any field of this
+        # DataFieldRecordArray gets modified.
+        for fname in self._field_name_list:
+            if fname not in arr:
+                raise KeyError(
+                    f'The data field "{fname}" is not present in the '
+                    'DataFieldRecordArray instance holding the selection '
+                    'data.')
+
         for fname in self._field_name_list:
             self._data_fields[fname][indices] = arr[fname]
 
